@@ -33,6 +33,8 @@ type Env struct {
 	// shadow: parameter names that loop invariants and sites read at their
 	// current (possibly reassigned) value; old(x) still gives the entry value
 	shadow map[string]bool
+	// atLoop(k): environment at the header of loop k in its current iteration
+	atLoop func(k int) *Env
 }
 
 var pkgByPath = map[string]*types.Package{}
@@ -696,6 +698,34 @@ func (e *Env) call(x *ECall) Val {
 			efail("upd sorts: key %s/%s value %s/%s", k.T.Sort, ks, v.T.Sort, vs)
 		}
 		return Val{T: tStore(a.T, k.T, v.T)}
+	case "atloop":
+		// atloop(k, expr): value of expr at the header of loop k in the current
+		// iteration of that loop
+		if e.atLoop == nil {
+			efail("atloop() is only available in loop invariants, continue clauses and sites")
+		}
+		li, ok := x.Args[0].(*EInt)
+		if !ok || len(x.Args) != 2 {
+			efail("atloop(<loop ordinal>, expr)")
+		}
+		k := 0
+		fmt.Sscanf(li.Val, "%d", &k)
+		he := e.atLoop(k)
+		if he == nil {
+			efail("atloop(%d, ...): not inside loop %d", k, k)
+		}
+		// bound (quantified) variables stay visible
+		h2 := *he
+		h2.vars = map[string]Val{}
+		for n, v := range he.vars {
+			h2.vars[n] = v
+		}
+		for n, v := range e.vars {
+			if _, isParam := he.vars[n]; !isParam {
+				h2.vars[n] = v
+			}
+		}
+		return h2.eval(x.Args[1])
 	case "called":
 		// called("<selector>#k"): that call of the function was executed on this path
 		// (false when the function makes no such call)
@@ -961,6 +991,19 @@ func (c *Ctx) resolveTypeAST(x ast.Expr, pkg *types.Package) (types.Type, Sort) 
 		return nil, arrSort(ks, vs)
 	case *ast.ParenExpr:
 		return c.resolveTypeAST(x.X, pkg)
+	case *ast.ChanType:
+		t, _ := c.resolveTypeAST(x.Value, pkg)
+		if t == nil {
+			return nil, SInt
+		}
+		dir := types.SendRecv
+		switch x.Dir {
+		case ast.RECV:
+			dir = types.RecvOnly
+		case ast.SEND:
+			dir = types.SendOnly
+		}
+		return types.NewChan(dir, t), SInt
 	}
 	return nil, ""
 }
